@@ -908,6 +908,7 @@ def subst(x: Rat, mapping: Dict[int, Rat], _cache=None) -> Rat:
     if _cache is None:
         _cache = {}
     keys = set(mapping)
+    bound_names = [(("[%s]" % T.get(i).name), i) for i in mapping if T.get(i).kind == "sym" and "bound" in T.get(i).flags]
 
     def atom_image(i: int) -> Rat:
         if i in _cache:
@@ -915,6 +916,12 @@ def subst(x: Rat, mapping: Dict[int, Rat], _cache=None) -> Rat:
         a = T.get(i)
         if i in mapping:
             r = mapping[i]
+        elif a.kind == "sym" and bound_names and any(bn in a.name for bn, _ in bound_names):
+            # path-named element of an indexed list: the index inside the path is instantiated too
+            n = a.name
+            for bn, bi in bound_names:
+                n = n.replace(bn, "[%s]" % mapping[bi])
+            r = Rat.atom(T.sym(n, a.flags - {"bound"}, a.meta))
         elif a.kind == "sym" or not (a.deps & keys):
             r = Rat.atom(a)
         else:
@@ -927,7 +934,8 @@ def subst(x: Rat, mapping: Dict[int, Rat], _cache=None) -> Rat:
         # group: most monomials are untouched
         untouched = {}
         for m, c in p.t.items():
-            if all((T.get(i).deps.isdisjoint(keys)) for i, _ in m):
+            if all((T.get(i).deps.isdisjoint(keys)) and not (bound_names and T.get(i).kind == "sym" and "[#" in T.get(i).name)
+                   for i, _ in m):
                 untouched[m] = c
                 continue
             term = Rat.const(c)
@@ -938,7 +946,7 @@ def subst(x: Rat, mapping: Dict[int, Rat], _cache=None) -> Rat:
             acc = acc + Rat(Poly(untouched))
         return acc
 
-    if x.deps().isdisjoint(keys):
+    if x.deps().isdisjoint(keys) and not (bound_names and any("[#" in T.get(i).name for i in x.atom_ids() if T.get(i).kind == "sym")):
         return x
     r = poly_image(x.num)
     for i, e in x.dm:
